@@ -1,6 +1,6 @@
 (* TV.Barriers.C20_proofs — lemmas for property C20. *)
 From TV.Lib Require Import Base.
-From Coq Require Import Sorted.
+From Coq Require Import Sorted Permutation.
 From TV.Barriers Require Import Model.
 Open Scope N_scope.
 
@@ -742,5 +742,163 @@ Proof.
   - destruct (snd (step V s (Trigger k w))) eqn:O; try apply IH. destruct T. now apply Hit.
   - destruct (snd (step V s (TriggerNoop k w))) eqn:O; try apply IH. destruct T. now apply Hit.
 Qed.
+
+
+(* ------------------------------------------------------------------ *)
+(* exactly one release token per suspended source, none for the others  *)
+
+Definition R (x : barrier) : list N := rels V (b_fifo x).
+Definition hrel (h : handle V) : list N := match h_rel h with Some k => [k] | None => [] end.
+
+Record TokInv2 (s : state) : Prop := {
+  tk_nd : NoDup (tokens s);
+  tk_susp : forall src, In src (tokens s) -> sget (srcs s) src = Suspended }.
+
+Lemma tokens_upd_app_perm b e (l : list barrier) x :
+  get_barrier V b l = Some x ->
+  Permutation (flat_map R (upd_fifo V b (fun f => f ++ [e]) l)) (rels V [e] ++ flat_map R l).
+Proof.
+  induction l as [|y l IH]; cbn -[rels]; [discriminate|]. destruct (b_id y =? b); cbn -[rels]; intros G.
+  - unfold R at 1. cbn -[rels]. rewrite rels_app, <- app_assoc. apply Permutation_app_swap_app.
+  - eapply perm_trans; [apply Permutation_app_head, (IH G)|]. apply Permutation_app_swap_app.
+Qed.
+
+Lemma tokens_pop_perm b e rest (l : list barrier) x :
+  get_barrier V b l = Some x -> b_fifo x = e :: rest ->
+  Permutation (flat_map R l) (rels V [e] ++ flat_map R (upd_fifo V b (fun _ => rest) l)).
+Proof.
+  induction l as [|y l IH]; cbn -[rels]; [discriminate|]. destruct (b_id y =? b); cbn -[rels]; intros G F.
+  - inversion G; subst. unfold R at 1 3. cbn -[rels]. rewrite F.
+    change (e :: rest) with ([e] ++ rest). rewrite rels_app, <- app_assoc. reflexivity.
+  - eapply perm_trans; [apply Permutation_app_head, (IH G F)|]. apply Permutation_app_swap_app.
+Qed.
+
+Lemma hrels_filter_perm hs h x :
+  NoDup (map h_id hs) -> get_handle V h hs = Some x ->
+  Permutation (hrels hs) (hrel x ++ hrels (filter (fun y => negb (h_id y =? h)) hs)).
+Proof.
+  induction hs as [|y hs IH]; cbn; [discriminate|]. intros ND G. inversion ND as [|? ? Hn Hd]; subst.
+  destruct (h_id y =? h) eqn:E; cbn.
+  - inversion G; subst. apply N.eqb_eq in E. rewrite filter_keep_all; [reflexivity|].
+    intros z Hz. apply negb_true_iff, N.eqb_neq. intro Ez. apply Hn. rewrite E, <- Ez. now apply in_map.
+  - eapply perm_trans; [apply Permutation_app_head, (IH Hd G)|]. apply Permutation_app_swap_app.
+Qed.
+
+Lemma tokens_filter_perm b (l : list barrier) x :
+  NoDup (map b_id l) -> get_barrier V b l = Some x ->
+  Permutation (flat_map R l) (R x ++ flat_map R (filter (fun y => negb (b_id y =? b)) l)).
+Proof.
+  induction l as [|y l IH]; cbn -[rels]; [discriminate|]. intros ND G. inversion ND as [|? ? Hn Hd]; subst.
+  destruct (b_id y =? b) eqn:E; cbn -[rels].
+  - inversion G; subst. apply N.eqb_eq in E. rewrite filter_keep_all; [reflexivity|].
+    intros z Hz. apply negb_true_iff, N.eqb_neq. intro Ez. apply Hn. rewrite E, <- Ez. now apply in_map.
+  - eapply perm_trans; [apply Permutation_app_head, (IH Hd G)|]. apply Permutation_app_swap_app.
+Qed.
+
+Lemma tokens_eq s : tokens s = flat_map R (regs s) ++ hrels (handles s).
+Proof. reflexivity. Qed.
+
+Lemma tokinv2_perm s s' :
+  Permutation (tokens s') (tokens s) -> (forall k, In k (tokens s) -> sget (srcs s') k = sget (srcs s) k) ->
+  TokInv2 s -> TokInv2 s'.
+Proof.
+  intros P E [A B]. constructor.
+  - eapply Permutation_NoDup; [apply Permutation_sym, P|exact A].
+  - intros k Hk. apply (Permutation_in _ P) in Hk. rewrite (E k Hk). auto.
+Qed.
+
+Lemma hrels_app hs h : hrels (hs ++ [h]) = hrels hs ++ hrel h.
+Proof. unfold hrels. rewrite flat_map_app. cbn. now rewrite app_nil_r. Qed.
+
+Lemma step_tokinv2 s e : RegOk s -> TokInv2 s -> TokInv2 (fst (step V s e)).
+Proof.
+  intros OK T. pose proof T as [ND SU]. destruct e as [r c|k v|k v|b|h|b]; cbn -[sset sget rels].
+  - (* Build *)
+    apply (tokinv2_perm s); [|reflexivity|exact T]. rewrite !tokens_eq. cbn -[rels].
+    rewrite flat_map_app. cbn. rewrite app_nil_r. reflexivity.
+  - (* Trigger *)
+    destruct (sget (srcs s) k) eqn:K; cbn -[sset sget rels]; try exact T.
+    destruct (first_match V (regs s) v) as [x|] eqn:M; cbn -[sset sget rels].
+    2:{ apply (tokinv2_perm s); [reflexivity|reflexivity|exact T]. }
+    apply first_match_in in M as [Mi _].
+    pose proof (get_barrier_unique _ _ (rk_nd _ OK) Mi) as G.
+    assert (Knot : ~ In k (tokens s)) by (intro Hk; apply SU in Hk; congruence).
+    destruct (b_react x); cbn -[sset sget rels].
+    + apply (tokinv2_perm s); [|reflexivity|exact T]. rewrite !tokens_eq. cbn -[rels].
+      apply Permutation_app_tail. eapply perm_trans; [apply (tokens_upd_app_perm _ _ _ _ G)|]. reflexivity.
+    + constructor.
+      * rewrite tokens_eq. cbn -[rels sset sget].
+        eapply Permutation_NoDup.
+        -- apply Permutation_sym. eapply perm_trans; [apply Permutation_app_tail, (tokens_upd_app_perm _ _ _ _ G)|].
+           cbn. reflexivity.
+        -- constructor; [exact Knot|exact ND].
+      * intros j Hj. rewrite tokens_eq in Hj. cbn -[rels sset sget] in Hj.
+        apply (Permutation_in _ (Permutation_app_tail _ (tokens_upd_app_perm _ _ _ _ G))) in Hj.
+        cbn in Hj. cbn -[sset sget rels]. rewrite sget_sset. destruct Hj as [<-|Hj]; [now rewrite N.eqb_refl|].
+        destruct (k =? j) eqn:E; [reflexivity|]. now apply SU.
+    + apply (tokinv2_perm s); [reflexivity| |exact T]. intros j Hj. cbn -[sset sget].
+      rewrite sget_sset. destruct (k =? j) eqn:E; [|reflexivity]. apply N.eqb_eq in E. subst. contradiction.
+  - (* TriggerNoop *)
+    destruct (sget (srcs s) k) eqn:K; cbn -[sset sget rels]; try exact T.
+    destruct (first_match V (regs s) v) as [x|] eqn:M; cbn -[sset sget rels].
+    2:{ apply (tokinv2_perm s); [reflexivity|reflexivity|exact T]. }
+    apply first_match_in in M as [Mi _].
+    pose proof (get_barrier_unique _ _ (rk_nd _ OK) Mi) as G.
+    assert (Knot : ~ In k (tokens s)) by (intro Hk; apply SU in Hk; congruence).
+    destruct (b_react x); cbn -[sset sget rels].
+    + apply (tokinv2_perm s); [|reflexivity|exact T]. rewrite !tokens_eq. cbn -[rels].
+      apply Permutation_app_tail. eapply perm_trans; [apply (tokens_upd_app_perm _ _ _ _ G)|]. reflexivity.
+    + apply (tokinv2_perm s); [reflexivity| |exact T]. intros j Hj. cbn -[sset sget].
+      rewrite sget_sset. destruct (k =? j) eqn:E; [|reflexivity]. apply N.eqb_eq in E. subst. contradiction.
+    + apply (tokinv2_perm s); [reflexivity| |exact T]. intros j Hj. cbn -[sset sget].
+      rewrite sget_sset. destruct (k =? j) eqn:E; [|reflexivity]. apply N.eqb_eq in E. subst. contradiction.
+  - (* Wait *)
+    destruct (get_barrier V b (regs s)) as [x|] eqn:G; cbn -[sset sget rels]; [|exact T].
+    destruct (b_fifo x) as [|en rest] eqn:F; cbn -[sset sget rels]; [exact T|].
+    apply (tokinv2_perm s); [|reflexivity|exact T]. rewrite !tokens_eq. cbn -[rels].
+    rewrite hrels_app.
+    eapply perm_trans; [|apply Permutation_app_tail, Permutation_sym, (tokens_pop_perm _ _ _ _ _ G F)].
+    assert (EqX : rels V [en] = hrel {| h_id := nhid s; h_val := e_val en; h_rel := e_rel en; h_tid := e_tid en |})
+      by (unfold rels, hrel; cbn; now rewrite app_nil_r).
+    rewrite EqX. rewrite <- (app_assoc (hrel _)). rewrite (app_assoc (flat_map R _)).
+    apply Permutation_app_comm.
+  - (* DropHandle *)
+    destruct (get_handle V h (handles s)) as [x|] eqn:G; cbn -[sset sget rels]; [|exact T].
+    pose proof (hrels_filter_perm _ _ _ (hk_nd _ OK) G) as P.
+    assert (PT : Permutation (tokens s) (hrel x ++ (flat_map R (regs s) ++ hrels (filter (fun y => negb (h_id y =? h)) (handles s))))).
+    { rewrite tokens_eq. eapply perm_trans; [apply Permutation_app_head, P|]. apply Permutation_app_swap_app. }
+    unfold hrel in PT. constructor.
+    + rewrite tokens_eq. cbn -[rels sset sget].
+      pose proof (Permutation_NoDup PT ND) as ND2. apply NoDup_app_iff in ND2. tauto.
+    + intros j Hj. rewrite tokens_eq in Hj. cbn -[rels sset sget] in Hj.
+      assert (Hj0 : In j (tokens s)).
+      { apply (Permutation_in _ (Permutation_sym PT)). apply in_or_app. now right. }
+      destruct (h_rel x) as [k0|]; cbn -[sset sget]; [|now apply SU].
+      rewrite sget_sset. destruct (k0 =? j) eqn:E; [|now apply SU].
+      apply N.eqb_eq in E. subst. exfalso.
+      pose proof (Permutation_NoDup PT ND) as ND2. cbn in ND2. inversion ND2; subst. contradiction.
+  - (* DropBarrier *)
+    destruct (get_barrier V b (regs s)) as [x|] eqn:G; cbn -[sset sget rels]; [|exact T].
+    pose proof (tokens_filter_perm _ _ _ (rk_nd _ OK) G) as P.
+    assert (PT : Permutation (tokens s) (R x ++ (flat_map R (filter (fun y => negb (b_id y =? b)) (regs s)) ++ hrels (handles s)))).
+    { rewrite tokens_eq. rewrite app_assoc. apply Permutation_app_tail. exact P. }
+    pose proof (Permutation_NoDup PT ND) as ND2. apply NoDup_app_iff in ND2 as (_ & ND3 & Dis).
+    constructor.
+    + rewrite tokens_eq. exact ND3.
+    + intros j Hj. rewrite tokens_eq in Hj. cbn -[rels sset sget] in Hj. cbn -[rels sset sget].
+      rewrite sget_release_all.
+      destruct (existsb (N.eqb j) (rels V (b_fifo x))) eqn:Ex.
+      * apply existsb_eqb_in in Ex. exfalso. exact (Dis j Ex Hj).
+      * apply SU. apply (Permutation_in _ (Permutation_sym PT)). apply in_or_app. now right.
+Qed.
+
+Lemma run_tokinv2 es : forall s, RegOk s -> TokInv2 s -> TokInv2 (final s es).
+Proof.
+  induction es as [|e es IH]; intros s OK T; [exact T|]. rewrite final_cons.
+  apply IH; [now apply step_regok|now apply step_tokinv2].
+Qed.
+
+Lemma tokinv2_init : TokInv2 (init V).
+Proof. constructor; cbn; [constructor|intros ? []]. Qed.
 
 End WithV.
